@@ -219,6 +219,55 @@ func runC19(c *Ctx) {
 					bad = append(bad, "the loop over the files can be left from inside its body at "+p.Pos(firstPos(e[0]))+": one unprocessable file stops the remaining ones")
 				}
 			}
+			// every file of the list reaches the handler: whether the handler is called in one round must not
+			// depend on anything carried over from earlier rounds (`matched = matched || handle(f)` stops
+			// handling files after the first success)
+			for b := range l.Body {
+				for _, ins := range b.Instrs {
+					call, ok := ins.(*ssa.Call)
+					if !ok || staticCallee(&call.Call) != handle {
+						continue
+					}
+					for x := range l.Body {
+						if x == l.Header || !x.Dominates(b) || x == b {
+							continue
+						}
+						iff, ok := x.Instrs[len(x.Instrs)-1].(*ssa.If)
+						if !ok {
+							continue
+						}
+						seen := map[ssa.Value]bool{}
+						var carried func(v ssa.Value, d int) bool
+						carried = func(v ssa.Value, d int) bool {
+							if v == nil || seen[v] || d > 6 {
+								return false
+							}
+							seen[v] = true
+							switch y := v.(type) {
+							case *ssa.Phi:
+								if y.Block() == l.Header {
+									return true
+								}
+								for _, e := range y.Edges {
+									if carried(e, d+1) {
+										return true
+									}
+								}
+							case *ssa.BinOp:
+								return carried(y.X, d+1) || carried(y.Y, d+1)
+							case *ssa.UnOp:
+								return carried(y.X, d+1)
+							case *ssa.Convert:
+								return carried(y.X, d+1)
+							}
+							return false
+						}
+						if carried(iff.Cond, 0) {
+							bad = append(bad, "whether a file is handled depends on a value carried over from the files before it (test at "+p.Pos(firstPos(x))+"): after some file the remaining ones are no longer processed")
+						}
+					}
+				}
+			}
 		}
 		if n == 0 {
 			bad = append(bad, "no loop calling the per-file handler")
